@@ -5,13 +5,14 @@ Model.  fmd.key_value_metadata: None or a list of NKV entries, entry j has key b
 meta['columns'] is a list of NCOLM column records; record i has a name, `metadata` (falsy or a dict; HASNC(i): it has the key
 'num_categories', whose value is the mutable integer nc(i), initially NC0(i)).  fmd.row_groups: NRG row groups, row group r has
 NCH(r) chunks; chunk (r, c) is named like column i iff MATCH(i, r, c); its key_value_metadata is None or a list of CKVN(r, c) entries,
-entry j has key b'num_categories' iff ISNCK(r, c, j) and then the decimal byte string of the integer INTJ(r, c, j).
+entry j is the chunk's num_categories entry iff ISNCK(r, c, j) - its key b'num_categories' (chunk parsed from a footer) or
+'num_categories' (row group written in this session: CKEYSTR, free per entry) - and then holds the decimal text of the integer INTJ(r, c, j).
 Spec side: HAS(r, c) = the chunk has such an entry, CH(r, c) = the integer of its first one.
 
 For an ARBITRARY categorical column i (the column loop is executed once from a havoc'd state; other columns are untouched:
 cats.column_loop.writes_only_own_column), with V = num_categories of column i after the call:
   cats.num_categories_at_least_initial             V >= NC0(i)
-  cats.num_categories_bounds_every_chunk           for ALL row groups r and chunks c of that column with a b'num_categories' entry:
+  cats.num_categories_bounds_every_chunk           for ALL row groups r and chunks c of that column with a num_categories entry (key bytes OR str):
                                                    CH(r, c) <= V  (INTEGER comparison; posed at a Skolem pair)
   cats.num_categories_is_attained                  V == NC0(i) or V == CH(r, c) for some such chunk   => V is exactly the maximum
   carried by  cats.rowgroup_loop / chunk_loop .invariant_on_entry / .invariant_preserved:
@@ -69,7 +70,8 @@ NCH = z3.Function("n_chunks", I, I)
 MATCH = z3.Function("chunk_is_of_column", I, I, I, B)
 CKVN = z3.Function("n_chunk_key_values", I, I, I)
 CKVNONE = z3.Function("chunk_key_values_is_None", I, I, B)
-ISNCK = z3.Function("chunk_key_is_num_categories", I, I, I, B)
+ISNCK = z3.Function("chunk_entry_is_its_num_categories", I, I, I, B)      # the key denotes num_categories - as bytes OR as str
+CKEYSTR = z3.Function("chunk_key_is_a_str_not_bytes", I, I, I, B)
 INTJ = z3.Function("int_of_chunk_value", I, I, I, I)
 HAS = z3.Function("chunk_has_num_categories", I, I, B)
 FIRSTJ = z3.Function("first_num_categories_entry", I, I, I)
@@ -254,9 +256,15 @@ class Key(H):
         lit = other.tag[1] if isinstance(other, Opaque) and isinstance(other.tag, tuple) and other.tag[:1] == ("bytes",) else None
         if self.kind == "fmd" and lit == b"pandas":
             return ISP(*self.idx)
+        # a chunk's num_categories entry carries its key as bytes (chunk parsed from a footer) or as str (row group written in this
+        # session): CKEYSTR is free per entry, so a test that recognises only one kind misses chunks of the other kind
         if self.kind == "chunk" and lit == b"num_categories":
-            return ISNCK(*self.idx)
-        raise Unsupported("key compared with " + repr(lit))
+            return z3.And(ISNCK(*self.idx), z3.Not(CKEYSTR(*self.idx)))
+        if self.kind == "chunk" and isinstance(other, Str) and other.s == "num_categories":
+            return z3.And(ISNCK(*self.idx), CKEYSTR(*self.idx))
+        if self.kind == "fmd" and isinstance(other, Str):
+            return z3.BoolVal(False) if other.s != "pandas" else z3.And(KEYSTR(*self.idx), ISPSTR(*self.idx))
+        raise Unsupported("key compared with " + repr(lit if lit is not None else getattr(other, "s", other)))
 
 
 class KeyText(H):
@@ -271,7 +279,7 @@ class KeyText(H):
             return z3.Or(z3.And(z3.Not(KEYSTR(*j)), ISP(*j)), z3.And(KEYSTR(*j), ISPSTR(*j)))
         if isinstance(other, Str) and self.key.kind == "chunk" and other.s == "num_categories":
             j = self.key.idx
-            return z3.Or(z3.And(z3.Not(KEYSTR(*j)), ISNCK(*j)), z3.And(KEYSTR(*j), ISPSTR(*j)))
+            return ISNCK(*j)          # the decoded text of either key kind
         return eng.fresh("key_text_eq", B)
 
 
